@@ -680,6 +680,58 @@ func dapiSeq(hdrSize int, hdrCRC bool, recs []byte) []byte {
 	return append(out, byte(c), byte(c>>8))
 }
 
+// dapiSeqDS frames records as dapiSeq does but declares `ds` as the data size (the file CRC still covers all of recs: it
+// is what Decode computes when it reads every record to its end).
+func dapiSeqDS(hdrSize int, hdrCRC bool, recs []byte, ds int) []byte {
+	h := []byte{byte(hdrSize), 0x20, 0x9a, 0x52, byte(ds), byte(ds >> 8), byte(ds >> 16), byte(ds >> 24), '.', 'F', 'I', 'T'}
+	if hdrSize == 14 {
+		c := uint16(0)
+		if hdrCRC {
+			c = crc16sum(h)
+		}
+		h = append(h, byte(c), byte(c>>8))
+	}
+	c := crc16sum(recs)
+	out := append(h, recs...)
+	return append(out, byte(c), byte(c>>8))
+}
+
+// dapiOverrunSeq builds a sequence whose LAST record runs k >= 1 bytes past the data size its header declares (the
+// record starts inside the declared size, so the record loop of Decode enters it). The last record is a data record
+// with a byte-array payload, a definition record, or the file_id record itself (then PeekFileId overruns too).
+// Returns the sequence (header, all records, CRC over all records) and k; the protocol's end of the sequence is
+// len(seq) - k.
+func dapiOverrunSeq(rng *Rng, fileIdFirst bool) ([]byte, int) {
+	var recs []byte
+	if fileIdFirst {
+		recs = append(recs, dapiDefRec(3, 0, 0, []dapiFD{{0, 1, 0x00}}, nil)...)
+		recs = append(recs, 3, 4)
+	}
+	for i, n := 0, rng.Intn(3); i < n; i++ {
+		recs = append(recs, dapiDefRec(1, 0, 20, []dapiFD{{3, 1, 0x02}}, nil)...)
+		recs = append(recs, 1, byte(rng.Intn(256)))
+	}
+	var last []byte
+	switch rng.Intn(3) {
+	case 0:
+		m := rng.Range(1, 12)
+		recs = append(recs, dapiDefRec(2, 0, 20, []dapiFD{{byte(100 + rng.Intn(100)), byte(m), 0x0D}}, nil)...)
+		last = append([]byte{2}, rng.Bytes(m)...)
+	case 1:
+		last = dapiDefRec(4, 0, 20, []dapiFD{{3, 1, 0x02}, {4, 1, 0x02}}, nil)
+	default:
+		recs = append(recs, dapiDefRec(3, 0, 0, []dapiFD{{0, 1, 0x00}, {1, 2, 0x84}, {3, 4, 0x8C}}, nil)...)
+		last = []byte{3, 4, 1, 0, byte(1 + rng.Intn(200)), 9, 9, 9}
+	}
+	k := rng.Range(1, len(last)-1)
+	all := append(recs, last...)
+	hs := 14
+	if rng.Intn(3) == 0 {
+		hs = 12
+	}
+	return dapiSeqDS(hs, rng.Intn(4) != 0, all, len(all)-k), k
+}
+
 func crc16sum(b []byte) uint16 {
 	h := crc16.New()
 	h.Write(b)
@@ -1431,6 +1483,40 @@ func genDecHist(emit func(string), tier string, rng *Rng) {
 		for _, h := range []string{"pki,rst1,dec", "pki,dis,rst1,dec", "pki,decc,rst1,dec", "dec,rst1,dec", "pki,ci,rst1,dec"} {
 			emit(dapiLine("dechist", opt, fac, h, [][]byte{P, S}))
 			count(fmt.Sprintf("leak-probe-%d", kind))
+		}
+	}
+	// predecessors whose last record overruns the declared data size by k = 1..n bytes (KF-C07-4: Decode reads the whole
+	// record and then the CRC, Discard / CheckIntegrity skip the declared size, Discard after an overrunning PeekFileId
+	// skips two more bytes): every consuming operation x checksums on / off x S placed behind the whole predecessor (where
+	// Decode stops) or at the protocol's end of the predecessor (where Discard stops) x S decoded / peeked / discarded
+	for i := 0; i < 30*scale; i++ {
+		ov, k := dapiOverrunSeq(rng, rng.Intn(3) == 0)
+		sk := rng.Intn(4)
+		S := dapiRandSeq(rng, sk, rng.Intn(3) == 0)
+		fac := dapiFacString(dapiRandFactory(rng))
+		for _, c := range consume {
+			for chk := 0; chk < 2; chk++ {
+				opt := fmt.Sprintf("chk%d,exp%d,bo0,bc0,ml%d,dl%d,lw0,rbs0", chk, rng.Intn(2), rng.Intn(2), rng.Intn(2))
+				last := []string{"dec", "dec", "pki,dec", "dis,dec", "pkh,dec", "nxt,dec", "decx:1"}[rng.Intn(7)]
+				var stream []byte
+				if rng.Bool() {
+					stream = append(append([]byte(nil), ov...), S...)
+					count("overrun-S-behind-predecessor")
+				} else {
+					stream = append(append([]byte(nil), ov[:len(ov)-k]...), S...)
+					count("overrun-S-at-protocol-end")
+				}
+				ops := c + "," + last
+				switch rng.Intn(8) {
+				case 0: // a well-formed sequence first: the class starts at the overrunning one
+					stream = append(dapiRandSeq(rng, 0, true), stream...)
+					ops = consume[rng.Intn(len(consume))] + "," + ops
+				case 1: // an integrity check (+ re-seek) after the overrunning predecessor was consumed puts the decoder back at the start
+					ops = c + ",ci," + c + "," + last
+				}
+				emit(dapiLine("dechist", opt, fac, ops, [][]byte{stream}))
+				count(fmt.Sprintf("overrun-by-%d", min(k, 4)))
+			}
 		}
 	}
 	// failing integrity check in the middle of a chain, then decoding from the start again
